@@ -215,6 +215,16 @@ def directed() -> Iterator[Tuple[str, G.Script]]:
     s.round([s.rd(103, cd.MT_CONNECT, G.p_connect())])
     s.round(dt=1000); s.round(dt=6000)
     yield "dynamic_ids_exhausted_and_wrap", probe(s)
+    # the only free dynamic id is the last one the probe loop reaches (id 199 with the cursor at 0), resp. the first one
+    # after the cursor has wrapped (id 100): both must be found
+    for free_uid, tag in ((100, "last"), (1, "first"), (50, "middle")):
+        s = G.Script(); s.accept(102)
+        for u in range(1, 101):
+            s.round([s.rd(u, cd.MT_CONNECT, G.p_connect())], writable=[u])
+        s.round([s.rd(free_uid, cd.MT_DISCONNECT)])
+        s.round([s.rd(101, cd.MT_CONNECT_V2, G.p_connect_v2(mod_id=0, name=b"finder"))], writable=[101])
+        s.round([s.rd(102, cd.MT_CONNECT, G.p_connect())], writable=[102])      # range full again: refused
+        yield f"dynamic_only_free_is_{tag}", probe(s)
     s = G.Script()
     for keep in (3, 7):
         s = G.Script()
